@@ -13,6 +13,8 @@ The property is a composition; every link is a contract on the real function tha
                            enumerated from the enum's own definition: complete)
   size         Lf          ProcessWorker.wait never waits for the exit of a child that is itself blocked sending a result larger than the
                            pipe buffer (parent reads while it waits) - the deadlock that made large results diverge from a direct call
+  main script  Lm          whether a RemoteWorker records the main script for the backend (main_path default) does not depend on target/args/kwargs
+                           (structural: dependency analysis of RemoteWorker.__init__): arguments may be main-script objects under a library target
 Interchangeability of the kinds is the corollary: each kind's (has_error, result, error) = decode(direct outcome)."""
 import ast
 import z3
@@ -34,10 +36,11 @@ TRUSTED = ['T5 pickle / remote_pickle round-trip picklable targets, arguments, r
            common.TEXT['chan']]
 ASSUMPTIONS = [
     'composition of the links (child report -> transport -> parent read -> decode) is by transitivity of equality and is stated in DESIGN.md, not machine-checked as one formula',
-    'the remote transport of (target, args, kwargs) to the backend (RemoteWorker.__getstate__/__setstate__) is trusted under T5; classes defined in the main script are covered by C13/C18, not here',
+    'the remote transport of (target, args, kwargs) to the backend (RemoteWorker.__getstate__/__setstate__) is trusted under T5; that the backend re-runs the main script whenever the parent has one is lemma Lm (structural); what re-running it makes importable is T5',
     'the error link states that the exception object reported is the one raised; "same type and arguments after pickling" is T5',
 ]
 MUTANTS = [
+    ('pyworkers/remote.py', "        if main_path is None:\n            try:\n                main_path = os.path.abspath", "        if main_path is None and getattr(args[0] if args else None, '__module__', None) == '__main__':\n            try:\n                main_path = os.path.abspath", 'the main script is recorded only for main-script targets'),
     ('pyworkers/worker.py', "        return self._target(*args, **kwargs)\n", "        return self._target(*args)\n", 'keyword arguments dropped'),
     ('pyworkers/worker.py', "        return self.run(*self._args, **self._kwargs)\n", "        self.run(*self._args, **self._kwargs)\n        return self.run(*self._args, **self._kwargs)\n", 'target called twice'),
     ('pyworkers/thread.py', "            self._result = (True, self.do_work())\n", "            self._result = (True, self.do_work() or None)\n", 'falsy results of the thread kind become None'),
@@ -151,7 +154,7 @@ def build(ex):
               ('THREAD', True): 'pyworkers.persistent_thread.PersistentThreadWorker', ('PROCESS', True): 'pyworkers.persistent_process.PersistentProcessWorker',
               ('REMOTE', True): 'pyworkers.persistent_remote.PersistentRemoteWorker'}
 
-    def create_variant(mname, mval, persistent):
+    def create_variant(mname, mval, persistent, history=False):
         def su(ex_, env):
             member = ex_.alloc(HObj(wt, {'name': VStr(mname), 'value': VInt(mval), '_name_': VStr(mname), '_value_': VInt(mval)}))
             env['cls'] = VClass(repo.cls(PWK if persistent else W))
@@ -180,7 +183,24 @@ def build(ex):
             env['expect'] = VStr(EXPECT.get((mname, persistent), '?'))
             env['tgt'] = tgt
             env['kw'] = kw
-        return (f'{"PersistentWorker" if persistent else "Worker"}.create({mname})', su)
+            # class-level state of Worker that starts as an empty literal (a cache, a registry) exists, empty, at the start of the history
+            for cname, expr in repo.cls(W).attrs.items():
+                if (W, cname) not in ex_.class_attrs:
+                    if isinstance(expr, ast.Dict) and not expr.keys:
+                        ex_.class_attrs[(W, cname)] = ex_.alloc(HDict({}))
+                    elif isinstance(expr, ast.List) and not expr.elts:
+                        ex_.class_attrs[(W, cname)] = ex_.alloc(HList([]))
+            if history:
+                # an earlier call of the OTHER flavour of the factory for the same member, in the same process (what Pool.add_worker(WorkerType.X) does
+                # before user code calls Worker.create(X, ...)): whatever it leaves behind must not change what this call builds
+                fi_create, owner = repo.lookup_method(repo.cls(W), 'create')
+                other = repo.cls(W if persistent else PWK)
+                ex_.interp.call_function(VFunc(fi_create), [VClass(other), member, ex_.interp.sym('earlier_target')], {'name': ex_.interp.sym('earlier_name')},
+                                         owner=owner, self_cls=other)
+                ex_.ghost['made'] = []
+        flav = "PersistentWorker" if persistent else "Worker"
+        oth = "Worker" if persistent else "PersistentWorker"
+        return (f'{flav}.create({mname})' + (f' after {oth}.create({mname})' if history else ''), su)
 
     def made_right(c):
         ex_ = c.ex
@@ -197,6 +217,10 @@ def build(ex):
                                     params={'cls': ('const', None), 'worker_type': ('const', None), 'args': ('const', None), 'kwargs': ('const', None)},
                                     self_class=PWK if persistent else W, setup=lambda ex_, env: None,
                                     ensures=[made_right], raises={}, raises_only=[]), create_variant(mname, mval, persistent)))
+            lemmas.append((Contract(W + '.create', lid='Le2', name='C02.Le2 the factory builds the class of the requested kind also after the other flavour of the factory has been used in the same process',
+                                    params={'cls': ('const', None), 'worker_type': ('const', None), 'args': ('const', None), 'kwargs': ('const', None)},
+                                    self_class=PWK if persistent else W, setup=lambda ex_, env: None,
+                                    ensures=[made_right], raises={}, raises_only=[]), create_variant(mname, mval, persistent, history=True)))
 
     def bad_type(ex_, env):
         env['cls'] = VClass(repo.cls(W))
@@ -321,12 +345,88 @@ def build(ex):
         lemmas.append((Contract(PW + '.wait', lid='Lf', name='C02.Lf ProcessWorker.wait does not wait for the exit of a child that is blocked sending a result larger than the pipe buffer',
                                 params={'self': ('const', None), 'timeout': ('const', None)}, self_class=PW, setup=wait_setup, returns='bool',
                                 raises={}, raises_only=[], options={'recv_closed_check': False}), v))
+    lemmas.append((main_path_lemma(ex, t_setup), None))
     workers.install(ex)        # C19.build/C16.build re-register the identity models; the parent/child set-ups need the constant ones
     return lemmas
 
 
+def main_path_dependencies(repo):
+    """Dependency analysis of RemoteWorker.__init__, re-read from the AST on every run: the names the DEFAULT of main_path (the assignment that reads the
+    main module's file) is control- or data-dependent on.  Returns (found, tainted_guards): found = such an assignment exists; tainted_guards = the conditions
+    on the way to it that depend on a constructor parameter other than main_path itself (self, *args, host, context, **kwargs) or on a local computed from one."""
+    import ast
+    fi, _ = repo.lookup_method(repo.cls(RW), '__init__')
+    fn = fi.node
+    a = fn.args
+    params = [x.arg for x in a.posonlyargs + a.args + a.kwonlyargs] + ([a.vararg.arg] if a.vararg else []) + ([a.kwarg.arg] if a.kwarg else [])
+    tainted = set(p for p in params if p != 'main_path')
+
+    def names(e):
+        return {n.id for n in ast.walk(e) if isinstance(n, ast.Name)}
+
+    def targets(t):
+        return {n.id for n in ast.walk(t) if isinstance(n, ast.Name) and isinstance(n.ctx, ast.Store)}
+    # data dependencies, to a fixed point (flow-insensitive: an over-approximation of what may depend on the other parameters)
+    changed = True
+    while changed:
+        changed = False
+        for n in ast.walk(fn):
+            if isinstance(n, (ast.Assign, ast.AugAssign, ast.AnnAssign)) and n.value is not None and names(n.value) & tainted:
+                tg = set()
+                for t in (n.targets if isinstance(n, ast.Assign) else [n.target]):
+                    tg |= targets(t)
+                tg.discard('main_path')
+                if not tg <= tainted:
+                    tainted |= tg
+                    changed = True
+    found, bad = [], []
+
+    def walk(stmts, guards):
+        for s in stmts:
+            if isinstance(s, ast.Assign) and 'main_path' in set().union(*[targets(t) for t in s.targets]) and '__main__' in ast.unparse(s.value):
+                found.append(s)
+                bad.extend(g for g in guards if names(g) & tainted)
+                if names(s.value) & tainted:
+                    bad.append(s.value)
+            if isinstance(s, ast.If):
+                walk(s.body, guards + [s.test])
+                walk(s.orelse, guards + [s.test])
+            elif isinstance(s, (ast.For, ast.While)):
+                g = [s.test] if isinstance(s, ast.While) else [s.iter]
+                walk(s.body, guards + g)
+                walk(s.orelse, guards + g)
+            elif isinstance(s, ast.Try):
+                walk(s.body, guards)
+                for h in s.handlers:
+                    walk(h.body, guards)
+                walk(s.orelse, guards)
+                walk(s.finalbody, guards)
+            elif isinstance(s, ast.With):
+                walk(s.body, guards)
+    walk(fn.body, [])
+    return bool(found), [ast.unparse(g) for g in bad]
+
+
+def main_path_lemma(ex, host_setup):
+    def setup(ex_, env):
+        host_setup(ex_, env)
+        found, bad = main_path_dependencies(ex_.repo)
+        if not found:
+            raise Undecided('RemoteWorker.__init__: no assignment of main_path from the main module\'s file found (the default is computed elsewhere)')
+        ex_.note('guards depending on the other constructor arguments: ' + repr(bad))
+        env['n_dependent_guards'] = VInt(len(bad))
+    return Contract(TW + '._get_result', lid='Lm',
+                    name='C02.Lm whether a RemoteWorker records the main script (main_path default) does not depend on what it is asked to run: target, args and kwargs '
+                         'may all refer to objects of the main script, which the backend can rebuild only if it re-runs that script '
+                         '(structural: dependency analysis of RemoteWorker.__init__, re-read from the AST each run; hosted on a trivial function)',
+                    params={'self': ('const', None)}, self_class=TW, setup=setup, ensures=['n_dependent_guards == 0'], raises={}, raises_only=[], modifies=[])
+
+
 def replay(ob, repo):
     from pyvc.native import run_script
+    if 'C02.Lm' in ob.get('lemma', ''):
+        r = run_script('c02_main_native.py', {'lemma': 'Lm'}, repo, timeout=200)
+        return bool(r.get('violates')), r
     r = run_script('c02_native.py', {'lemma': ob['lemma'].split(' ')[0].split('.')[-1]}, repo, timeout=300)
     return bool(r.get('violates')), r
 
